@@ -51,6 +51,7 @@ type reqState struct {
 	terminal     string // "", ok, rejected, aborted
 	deletedBy    string
 	deletedSeq   uint64
+	abortedSeq   uint64
 	lastStarted  time.Time
 	overdueIters int
 	limitIters   int
@@ -108,7 +109,23 @@ func (o *orC06) onZK(e *ZKEvent) {
 			}
 			// a request that has ended (recorded, or aborted by the operator) does not come back
 			if prev := o.reqs[k]; prev != nil && byDaemon && (prev.terminal == "ok" || prev.terminal == "rejected" || prev.terminal == "aborted") {
-				m.violate("C06", "resurrected", "ended-request-written-back-by-manager:"+prev.terminal, fmt.Sprintf("%s wrote request %s back into /switch (run_count=%d) after it had ended as %s", e.Inc, k, sw.RunCount, prev.terminal))
+				sig := "ended-request-written-back-by-manager:" + prev.terminal
+				if prev.terminal == "aborted" {
+					// the abort landed between the manager's look at the request and its next write of
+					// it, with no statement of the manager in between: nothing it could have noticed
+					raced := true
+					if it := m.iters[e.Inc]; it != nil {
+						for _, x := range it.sql {
+							if x.Src == e.Inc && x.Seq > prev.abortedSeq {
+								raced = false
+							}
+						}
+					}
+					if raced {
+						sig += ":abort-raced-with-the-write"
+					}
+				}
+				m.violate("C06", "resurrected", sig, fmt.Sprintf("%s wrote request %s back into /switch (run_count=%d) after it had ended as %s", e.Inc, k, sw.RunCount, prev.terminal))
 			}
 			if o.cur == nil || o.cur.key != k || o.cur.terminal != "" {
 				o.cur = &reqState{key: k, first: sw, createdT: m.s.now(), createdBy: e.Inc, runCount: sw.RunCount}
@@ -167,6 +184,7 @@ func (o *orC06) onZK(e *ZKEvent) {
 				o.pendingDelete = r
 			} else {
 				r.terminal = "aborted"
+				r.abortedSeq = e.Seq
 				r.openBy = ""
 				m.probe("c06_aborted_by_operator")
 			}
